@@ -354,6 +354,53 @@ pub fn narrow_alphabet(addr: u16, foreign: u16, genuine: usize) -> Vec<RefMsg> {
     v
 }
 
+/// The explorer's visited set is keyed by the implementation's own `Eq` / `Hash`. That is sound only if two signs that
+/// compare equal have the same future. This probe builds pairs of signs whose observables agree but whose futures differ
+/// (different buffered bytes, different chunk tallies, different configured sizes) and returns how many of the pairs the
+/// implementation's equality fails to separate (0 on a tree whose `VirtualSign` derives `PartialEq` / `Hash` over all of
+/// its fields). A non-zero result makes every exploration inconclusive, not wrong.
+pub fn equality_merges_states_with_different_futures() -> usize {
+    use std::hash::{Hash, Hasher};
+    let run = |msgs: &[RefMsg]| {
+        let mut s = VirtualSign::new(Address(3), PageFlipStyle::Manual);
+        for m in msgs {
+            let _ = s.process_message(&refs::from_ref(m));
+        }
+        s
+    };
+    let cfg1 = configure_msgs(3, &TINY1);
+    let cfg2 = configure_msgs(3, &TINY2);
+    let with = |head: &[RefMsg], tail: &[RefMsg]| [head, tail].concat();
+    let pairs: Vec<(Vec<RefMsg>, Vec<RefMsg>)> = vec![
+        // same state (pixels in progress), different buffered bytes
+        (with(&cfg2, &[RefMsg::Request(3, O_RECV_PIX), RefMsg::Data { offset: 0, data: vec![1; 16] }]), with(&cfg2, &[RefMsg::Request(3, O_RECV_PIX), RefMsg::Data { offset: 0, data: vec![2; 16] }])),
+        // same state, same bytes, different number of chunks counted
+        (with(&cfg2, &[RefMsg::Request(3, O_RECV_PIX), RefMsg::Data { offset: 0, data: vec![1; 16] }]), with(&cfg2, &[RefMsg::Request(3, O_RECV_PIX), RefMsg::Data { offset: 0, data: vec![1; 8] }, RefMsg::Data { offset: 8, data: vec![1; 8] }])),
+        // same state (configuration received, unknown type), different sizes
+        (cfg1.clone(), cfg2.clone()),
+        // configuration in progress: a block buffered or not yet
+        (vec![RefMsg::Request(3, O_RECV_CFG)], vec![RefMsg::Request(3, O_RECV_CFG), RefMsg::Data { offset: 0, data: TINY1.to_vec() }]),
+    ];
+    let h = |s: &VirtualSign<'_>| {
+        let mut x = std::collections::hash_map::DefaultHasher::new();
+        s.hash(&mut x);
+        x.finish()
+    };
+    let mut merged = 0;
+    for (a, b) in &pairs {
+        let (sa, sb) = (run(a), run(b));
+        let same_observables = observe(&sa) == observe(&sb);
+        if same_observables && (sa == sb || h(&sa) == h(&sb) && sa == sb) {
+            merged += 1;
+        }
+        // equal histories give equal signs (the other half of what the visited set needs)
+        if run(a) != sa || h(&run(a)) != h(&sa) {
+            merged += 1;
+        }
+    }
+    merged
+}
+
 /// Explores until no new state appears (or `max_states` is hit — then `fixed_point` is false).
 /// `on_step(parent index, nodes, message, outcome)` is called for EVERY transition, expanded or not.
 pub fn explore(cfg: &Cfg, rep: &mut Report, on_step: &mut dyn FnMut(&[Node], usize, &RefMsg, &StepOut, &mut Report)) -> Explored {
